@@ -16,8 +16,8 @@ def context():
     db.add_context_category("c02", prepend=True, macros=[
         MacroSpec("ma", "{"), MacroSpec("mo", "[{"), MacroSpec("ms", "*{"), MacroSpec("mt", ["t+", "{"]),
         MacroSpec("md", ["m", "d<>"]), MacroSpec("mr", ["r()", "{"]), MacroSpec("mso", "*[{"), MacroSpec("mm", "{{"),
-        MacroSpec("mz", "")],
-        environments=[EnvironmentSpec("ea", "[{"), EnvironmentSpec("ez", "")])
+        MacroSpec("mz", ""), MacroSpec("moo", "[")],
+        environments=[EnvironmentSpec("ea", "[{"), EnvironmentSpec("ez", ""), EnvironmentSpec("eo", "[")])
     return db
 
 def dump(n):
@@ -125,6 +125,12 @@ FIXED = [
     ("a % c\nb", [("chars", "a "), ("comment", " c"), ("chars", "b")]),
     ("a\n\nb", [("chars", "a"), ("specials", "\n\n"), ("chars", "b")]),
     (r"\begin{ez}\begin{ez}x\end{ez}y\end{ez}", [("env", "ez", [], [("env", "ez", [], [("chars", "x")]), ("chars", "y")])]),
+    # a comment where an absent optional argument would stand stays in the tree, after the macro / at the start of the body
+    ("\\moo% c\nx", [("macro", "moo", [None]), ("comment", " c"), ("chars", "x")]),
+    ("\\begin{eo}% c\nbody\\end{eo}", [("env", "eo", [None], [("comment", " c"), ("chars", "body")])]),
+    # an environment without a declaration of its own (unknown-environment spec) ends at the \\end of ITS name
+    (r"\begin{zzz}x\end{zzz}", [("env", "zzz", [], [("chars", "x")])]),
+    (r"a\begin{zzz}\mz\begin{ez}y\end{ez}\end{zzz}b", [("chars", "a"), ("env", "zzz", [], [("macro", "mz", []), ("env", "ez", [], [("chars", "y")])]), ("chars", "b")]),
 ]
 
 def table():
